@@ -5,7 +5,8 @@ import PqModel.TypedPath
 /-! Op for C03 (typed write path model).
     TNode text: `F` required leaf | `Z` optional non-pointer leaf | `S(a,b)` struct | `P(x)` pointer |
                 `R(x)` slice on a repeated node | `L(x)` slice with the list tag | `Q(x)` optional + list |
-                `M(k,v)` map | `W(k,v)` map with the optional tag
+                `M(k,v)` map | `W(k,v)` map with the optional tag |
+                `T(a,b)` non-pointer struct with the optional tag
     Val text as in `Driver.Ops.C03`. -/
 namespace Driver.Ops.C03Typed
 open Driver PqModel.Dremel PqModel.TypedPath
@@ -29,6 +30,9 @@ partial def parseT : List Char → Option (TNode × List Char)
   | 'S' :: '(' :: r => do
     let (fs, r) ← parseTF r
     some (.struct fs, r)
+  | 'T' :: '(' :: r => do
+    let (fs, r) ← parseTF r
+    some (.optStruct fs, r)
   | 'M' :: '(' :: r => do
     let (kn, r) ← parseT r
     match r with
